@@ -224,4 +224,60 @@ def noConflict : E → Bool
   | .comma a b | .land a b | .lor a b => noConflict a && noConflict b
   | .cond c a b => noConflict c && noConflict a && noConflict b
 
+/-! ### pointer arithmetic (parse.c `new_add`, `new_sub`)
+
+Every form — `p + i`, `i + p`, `p - i`, `p[i]`, `p += i`, `p -= i`, `++p`, `p++` … — goes through `new_add` / `new_sub`, which
+scale the index by `ND_MUL(idx, new_long(sizeof *p))`: `add_type` converts the index to `long` (`unsigned long` for an
+`unsigned long` index) and the multiplication is a 64-bit `imul`.  `p - q` is `ND_DIV(ND_SUB(p, q) : long, new_num(size))`. -/
+
+/-- `idx * sizeof(*p)`: the element size (a `long` literal), `push`, the index (type `ti`, code `cidx`) converted to the
+    common type with `long`, `pop %rdi`, 64-bit multiply -/
+def scaleCode (ti : ITy) (size : Int) (cidx : List Ins) : List Ins :=
+  [iMovImm size] ++ castSeq .i64 (usualArith ti .i64) ++ [iPush] ++ cidx ++ castSeq ti (usualArith ti .i64) ++ [iPopRdi] ++
+    opSeq .ND_MUL (usualArith ti .i64)
+
+/-- `p + i` / `p - i` (also `i + p`, `&p[i]`): the scaled index, `push`, the pointer, `pop %rdi`, 64-bit add / sub -/
+def ptrAddCode (isSub : Bool) (ti : ITy) (size : Int) (cidx cptr : List Ins) : List Ins :=
+  scaleCode ti size cidx ++ [iPush] ++ cptr ++ [iPopRdi] ++ opSeq (if isSub then .ND_SUB else .ND_ADD) .u64
+
+/-- `p - q`: the element size (an `int` literal converted to `long`), `push`, `q`, `push`, `p`, `pop`, 64-bit sub, `pop`,
+    `cqo; idiv` -/
+def ptrDiffCode (size : Int) (cp cq : List Ins) : List Ins :=
+  [iMovImm size] ++ castSeq .i32 .i64 ++ [iPush] ++ (cq ++ [iPush] ++ cp ++ [iPopRdi] ++ opSeq .ND_SUB .i64) ++ [iPopRdi] ++
+    opSeq .ND_DIV .i64
+
+/-- a pointer variable: `lea off(%rbp), %rax; mov (%rax), %rax` -/
+def ptrVarCode (d : Int) : List Ins := iLea d :: loadSeq .u64
+
+/-- `p op= i` for a pointer variable at `offP(%rbp)` (`op` = add / sub; also `++p`, `--p` with the literal 1 as index):
+    `tmp = &p, *tmp = *tmp ± i * size` -/
+def ptrOpAssignCode (isSub : Bool) (ti : ITy) (size : Int) (offP tmp : Int) (cidx : List Ins) : List Ins :=
+  [iLea tmp, iPush, iLea offP] ++ storeSeq .u64 ++ iLea tmp :: loadSeq .u64 ++ [iPush] ++
+  ptrAddCode isSub ti size cidx (iLea tmp :: loadSeq .u64 ++ loadSeq .u64) ++ storeSeq .u64
+
+/-- `p++` / `p--` (`(T*)((p += ±1) + ∓1)`): the literal `∓1` scaled, `push`, `p += ±1`, `pop %rdi`, 64-bit add -/
+def ptrPostCode (isDec : Bool) (size : Int) (offP tmp : Int) : List Ins :=
+  ptrAddCode false .i32 size [iMovImm (if isDec then 1 else -1)]
+    (ptrOpAssignCode false .i32 size offP tmp [iMovImm (if isDec then -1 else 1)])
+
+/-! ### frame layouts (offsets relative to `%rbp`, frame of `N` bytes: `%rbp = %rsp + N` after the prologue) -/
+
+/-- `[d, d+n)` lies inside the frame `[-N, 0)` -/
+def inFrame (d : Int) (n : Nat) (N : Int) : Bool := decide (-N ≤ d) && decide (d + n ≤ 0)
+
+/-- `[a, a+n)` and `[b, b+m)` are disjoint -/
+def disjI (a : Int) (n : Nat) (b : Int) (m : Nat) : Bool := decide (a + n ≤ b) || decide (b + m ≤ a)
+
+def szOf (tys : List ITy) (i : Nat) : Nat := ((tys[i]?).map ITy.size).getD 0
+
+/-- the variables (`off i`, `size` bytes) and the `K` hidden temporaries (`toff k`, 8 bytes) lie inside the frame and are
+    pairwise disjoint: the hypothesis `Lay` of `C01_value_effects`, as a check on offsets (`lay_of_layoutOK`) -/
+def layoutOK (tys : List ITy) (off toff : Nat → Int) (K : Nat) (N : Int) : Bool :=
+  (List.range tys.length).all (fun i => inFrame (off i) (szOf tys i) N) &&
+  (List.range K).all (fun k => inFrame (toff k) 8 N) &&
+  (List.range tys.length).all (fun i => (List.range tys.length).all fun j =>
+    i == j || disjI (off i) (szOf tys i) (off j) (szOf tys j)) &&
+  (List.range tys.length).all (fun i => (List.range K).all fun k => disjI (off i) (szOf tys i) (toff k) 8) &&
+  (List.range K).all (fun k => (List.range K).all fun l => k == l || disjI (toff k) 8 (toff l) 8)
+
 end ChibiVerif.C01
